@@ -9,6 +9,7 @@ import (
 	"time"
 
 	"github.com/mholt/caddy-l4/layer4"
+	"github.com/caddyserver/caddy/v2/modules/caddyhttp/reverseproxy"
 	"github.com/mholt/caddy-l4/modules/l4proxy"
 
 	"verif/sim/simnet"
@@ -24,6 +25,7 @@ type c03Sample struct {
 	AppLen    int      `json:"client_bytes"`
 	ClientEnd string   `json:"client_end"`
 	Faulty    bool     `json:"fault_config"`
+	TLSUp     bool     `json:"tls_to_upstream"`
 	Net       simnet.Cfg `json:"net"`
 	UpRecv    []int    `json:"upstream_received"`
 	UpSent    []int    `json:"upstream_sent"`
@@ -35,7 +37,7 @@ type c03Sample struct {
 func init() {
 	register(&Prop{
 		ID:   "C03",
-		Rule: "each run puts the real proxy handler behind an optional matcher (prefetched bytes), consume-k and wrapping handlers (throttle, proxy_protocol, tls), with 1..3 peers in the selected upstream scripted as sink / echo / source / reply-after-EOF / duplex, position-coded payloads both ways (0..~100KB, 1MiB in thorough), all chunkings, windows and latencies, and the order of half-closes (client first, upstream first while the client keeps sending, full close); a separate fault configuration adds client/upstream resets and stalls. Oracle: reference streams both ways, EOF propagation while the other direction still flows, handler return, closure of every upstream connection, goroutine census, bounded liveness. Non-trivial: both directions carried data or a half-close was propagated; distinct: event-log hashes.",
+		Rule: "each run puts the real proxy handler behind an optional matcher (prefetched bytes), consume-k and wrapping handlers (throttle, proxy_protocol, tls), optionally TLS towards the upstreams (the proxy's tls option; half-close as close_notify), with 1..3 peers in the selected upstream scripted as sink / echo / source / reply-after-EOF / duplex, position-coded payloads both ways (0..~100KB, 1MiB in thorough), all chunkings, windows and latencies, and the order of half-closes (client first, upstream first while the client keeps sending, full close); a separate fault configuration adds client/upstream resets and stalls. Oracle: reference streams both ways, EOF propagation while the other direction still flows, handler return, closure of every upstream connection, goroutine census, bounded liveness. Non-trivial: both directions carried data or a half-close was propagated; distinct: event-log hashes.",
 		Run:  runC03,
 		MaxSteps: 60000,
 	})
@@ -50,6 +52,7 @@ func runC03(t *testing.T, e *worlds.Env, tier string) (bool, any) {
 	var scripts []*worlds.UpScript
 	var addrs []string
 	faulty := false
+	tlsUp := false
 	wrappers := ""
 	clientEndName := ""
 	var rs *worlds.RecSelector
@@ -74,12 +77,14 @@ func runC03(t *testing.T, e *worlds.Env, tier string) (bool, any) {
 			// quiesce): TLS termination is explored with a single peer only
 			npeers = 1
 		}
+		// TLS towards the upstreams (the proxy's `tls` option): half-close travels as close_notify
+		tlsUp = tp.Prob(1, 6, "tls-upstream")
 		ups = e.NewProxyUps()
 		for i := 0; i < npeers; i++ {
 			addr := fmt.Sprintf("10.1.0.%d:80", i+1)
 			addrs = append(addrs, addr)
 			ups.Add("tcp", addr, tp.Pick("dial-lat-ms", 0, 0, 5, 200))
-			sc := &worlds.UpScript{Tag: byte(i), Key: e.S.Seed*53 + uint64(i), AbortAt: -1}
+			sc := &worlds.UpScript{Tag: byte(i), Key: e.S.Seed*53 + uint64(i), AbortAt: -1, TLS: tlsUp}
 			modes := []int{worlds.UpSink, worlds.UpSource, worlds.UpReplyAtEOF, worlds.UpDuplex, worlds.UpEcho}
 			if npeers > 1 {
 				modes = modes[:4]
@@ -114,8 +119,12 @@ func runC03(t *testing.T, e *worlds.Env, tier string) (bool, any) {
 			dials = append(dials, "tcp/"+a)
 		}
 		rs = &worlds.RecSelector{E: e, Inner: &l4proxy.FirstSelection{}}
+		up0 := &l4proxy.Upstream{Dial: dials}
+		if tlsUp {
+			up0.TLS = &reverseproxy.TLSConfig{InsecureSkipVerify: true}
+		}
 		h := &l4proxy.Handler{
-			Upstreams:     l4proxy.UpstreamPool{&l4proxy.Upstream{Dial: dials}},
+			Upstreams:     l4proxy.UpstreamPool{up0},
 			LoadBalancing: &l4proxy.LoadBalancing{SelectionPolicy: rs},
 		}
 		if err := h.Provision(e.Ctx); err != nil {
@@ -216,6 +225,7 @@ func runC03(t *testing.T, e *worlds.Env, tier string) (bool, any) {
 		cl = e.StartClient(w.Ln, plan, model)
 		w.Clients = append(w.Clients, cl)
 		sample.Peers, sample.AppLen, sample.ClientEnd, sample.Faulty, sample.Net = npeers, appLen, clientEndName, faulty, e.N.Cfg
+		sample.TLSUp = tlsUp
 		return func() bool {
 			if !w.Done() {
 				return false
@@ -245,6 +255,9 @@ func runC03(t *testing.T, e *worlds.Env, tier string) (bool, any) {
 			sample.UpSent = append(sample.UpSent, r.Sent)
 		}
 		sample.CliRecv = len(cl.Received)
+		if tlsUp && len(recs) > 0 && len(recs[0].Received) > 0 {
+			e.S.Stats["probe_tls_upstream_carried_data"]++
+		}
 		if ex, ok := e.S.ExitAt["srv.1"]; ok {
 			sample.Returned = ex.String()
 		}
